@@ -79,11 +79,11 @@ def check_excess_and_inverse(res, rng, T, names, P):
     want_mean = [sum(k[i] * v for k, v in P.items()) for i in range(T)]
     res.count("mean_checks")
     if len(mean) != T or any(not close(m, w) for m, w in zip(mean, want_mean)):
-        res.violate("mean-joint-degree-differs", got=list(mean), want=[float(x) for x in want_mean], **ctx); return
+        res.violate("mean-joint-degree-differs", got=list(mean), want=[float(x) for x in want_mean], ctx=ctx); return
     # excess distributions
     qs = sut("JointExcessfromJDD.get_joint_excess_distributions", gcmpy.JointExcessfromJDD.get_joint_excess_distributions, dict(Pf))
     if len(qs) != T:
-        res.violate("wrong-number-of-excess-distributions", got=len(qs), **ctx); return
+        res.violate("wrong-number-of-excess-distributions", got=len(qs), ctx=ctx); return
     want_q = []
     for i in range(T):
         w = {}
@@ -96,16 +96,16 @@ def check_excess_and_inverse(res, rng, T, names, P):
         res.count("excess_checks")
         bad = same_dist(qs[i], w)
         if bad is not None:
-            res.violate("excess-distribution-differs", topology=i, key=bad, got=qs[i].get(bad), want=float(w.get(bad, 0)), **ctx); return
+            res.violate("excess-distribution-differs", topology=i, key=bad, got=qs[i].get(bad), want=float(w.get(bad, 0)), ctx=ctx); return
         if w and not close(sum(qs[i].values()), 1):
-            res.violate("excess-distribution-does-not-sum-to-one", topology=i, total=sum(qs[i].values()), **ctx); return
+            res.violate("excess-distribution-does-not-sum-to-one", topology=i, total=sum(qs[i].values()), ctx=ctx); return
     # list <-> dict helpers
     qd = sut("convert_list_qks_to_dict", gcmpy.JointExcessfromJDD.convert_list_qks_to_dict, qs, list(names))
     if list(qd) != list(names) or any(qd[n] is not qs[i] and qd[n] != qs[i] for i, n in enumerate(names)):
-        res.violate("list-to-dict-conversion-wrong", **ctx); return
+        res.violate("list-to-dict-conversion-wrong", ctx=ctx); return
     ql = sut("convert_dict_qks_to_list", gcmpy.JointExcessfromJDD.convert_dict_qks_to_list, qd, list(names))
     if ql != qs:
-        res.violate("dict-to-list-conversion-wrong", **ctx); return
+        res.violate("dict-to-list-conversion-wrong", ctx=ctx); return
     # inversion
     if any(all(x > 0 for x in k) for k in P):
         res.count("inversion_checks")
@@ -116,7 +116,7 @@ def check_excess_and_inverse(res, rng, T, names, P):
         want = {k: v / Z for k, v in nz.items()}
         bad = same_dist(inv, want)
         if bad is not None:
-            res.violate("inversion-does-not-return-P", key=bad, got=inv.get(bad), want=float(want.get(bad, 0)), **ctx); return
+            res.violate("inversion-does-not-return-P", key=bad, got=inv.get(bad), want=float(want.get(bad, 0)), ctx=ctx); return
     else:
         res.count("inversion_not_applicable")
 
